@@ -206,6 +206,17 @@ Definition td_nondict (konst: sfield -> option pv) (fds: list sfield) : res pv :
   r <- td_go (fun (_: sfield) (_: unit) => Exn XTypeError) konst XTypeError [] (td_order fds) ;;
   if existsb (fun f => f.(sf_opt)) fds then Exn XAttributeError else Ok (VDict r).
 
+Section OMapM.
+  Context {A B: Type} (f: A -> option B).
+  Fixpoint omapM (l: list A) : option (list B) :=
+    match l with
+    | [] => Some []
+    | x :: r => match f x with
+                | Some y => match omapM r with Some ys => Some (y :: ys) | None => None end
+                | None => None end
+    end.
+End OMapM.
+
 (* fuel exhausted while a str input descends through NamedTuple classes (see [uk_str]) *)
 Definition XRecursion : exn := XOther "RecursionError".
 
@@ -436,13 +447,32 @@ Section Run.
     | SNone => Ok VNone
     end.
 
-  (* a fixed tuple whose remaining positions are all None-typed (or empty-tuple-typed) does not
-     read the missing items: the generated expression for such a position is a constant *)
-  Definition const_dec (u: pdec) : option pv :=
-    match u with
-    | UScalar SNone => Some VNone           (* expression "None" *)
-    | UTupleFix [] => Some (VTuple [])      (* expression "()" *)
-    | _ => None end.
+  (* constant expressions: the generated unpacker expression of a position does not mention its
+     input, so the item / key is never read -- "None" for NoneType, "tuple([c0, c1, ...])" resp. "()"
+     for a fixed tuple of constants, "C(c0, c1, ...)" for a NamedTuple class WITHOUT defaults all
+     of whose fields are constants (with defaults the expression is a helper call on value[i];
+     a TypedDict always is a method call on value[...]; Optional[...] tests value[i]).  Nested
+     arbitrarily, through the class table: fuel as in [uk_str], started with [List.length E]. *)
+  Fixpoint const_dec_n (n: nat) {struct n} : pdec -> option pv :=
+    fix on_u (u: pdec) {struct u} : option pv :=
+      match u with
+      | UScalar SNone => Some VNone
+      | UTupleFix us => match omapM on_u us with Some cs => Some (VTuple cs) | None => None end
+      | UNamed c =>
+          match n with
+          | O => None
+          | S n' =>
+              match sfind E KNamed c with
+              | None => None
+              | Some k =>
+                  if has_default k.(sc_fields) then None
+                  else match omapM (fun f => const_dec_n n' (cu true f.(sf_ty))) k.(sc_fields) with
+                       | Some cs => Some (VNT c cs)
+                       | None => None end
+              end
+          end
+      | _ => None end.
+  Definition const_dec (u: pdec) : option pv := const_dec_n (List.length E) u.
   Fixpoint none_tail (us: list pdec) : res (list pv) :=
     match us with
     | [] => Ok []
@@ -625,11 +655,27 @@ Section Run.
      scalar, canonical concrete container with every element converted, surplus tuple
      items and unknown keys ignored; iteration semantics of foreign inputs (a str
      iterates its characters, a dict its keys). *)
-  Definition const_ty (t: sty) : option pv :=
-    match t with
-    | SNoneT => Some VNone
-    | STupleFix [] => Some (VTuple [])
-    | _ => None end.
+  (* types whose constructor takes no information from the input (see [const_dec_n]) *)
+  Fixpoint const_ty_n (n: nat) {struct n} : sty -> option pv :=
+    fix on_t (t: sty) {struct t} : option pv :=
+      match t with
+      | SNoneT => Some VNone
+      | STupleFix ts => match omapM on_t ts with Some cs => Some (VTuple cs) | None => None end
+      | SNamed c =>
+          match n with
+          | O => None
+          | S n' =>
+              match sfind E KNamed c with
+              | None => None
+              | Some k =>
+                  if has_default k.(sc_fields) then None
+                  else match omapM (fun f => const_ty_n n' f.(sf_ty)) k.(sc_fields) with
+                       | Some cs => Some (VNT c cs)
+                       | None => None end
+              end
+          end
+      | _ => None end.
+  Definition const_ty (t: sty) : option pv := const_ty_n (List.length E) t.
   Fixpoint none_tail_t (ts: list sty) : res (list pv) :=
     match ts with
     | [] => Ok []
